@@ -538,7 +538,17 @@ func c01Sequence(cs *drv.Case, vals []cval, sched int, withData bool) {
 	sink := &doubles.Sink{}
 	dw := bufiox.NewDefaultWriter(sink)
 	bw := thrift.NewBufferWriter(dw)
+	// the bytes writer's target may already hold bytes (an encoding appended behind a frame header):
+	// they stay, the encoding follows them
 	var target []byte
+	var prefix []byte
+	switch cs.R.Intn(4) {
+	case 1:
+		prefix = gen.Bytes(cs.R, 1+cs.R.Intn(40))
+		target = append(make([]byte, 0, len(prefix)+cs.R.Intn(3)*50), prefix...)
+	case 2:
+		target = make([]byte, 0, 1+cs.R.Intn(5000))
+	}
 	yw := bufiox.NewBytesWriter(&target)
 	bw2 := thrift.NewBufferWriter(yw)
 	for i, v := range vals {
@@ -576,9 +586,12 @@ func c01Sequence(cs *drv.Case, vals []cval, sched int, withData bool) {
 		cs.Fail("stream-writer-bytes", M{"kind": kindNames[vals[k].K]}, m)
 		return
 	}
-	if !bytes.Equal(target, stream) {
-		cs.Fail("stream-writer-bytes", M{"sink": "bytes-writer"}, M{"message": fmt.Sprintf("bytes writer holds %d bytes, reference %d; first difference at %d", len(target), len(stream), firstDiff(target, stream))})
+	if full := append(append([]byte(nil), prefix...), stream...); !bytes.Equal(target, full) {
+		cs.Fail("stream-writer-bytes", M{"sink": "bytes-writer"}, M{"initial_target_bytes": len(prefix), "message": fmt.Sprintf("bytes writer target holds %d bytes, want the %d it held before + the reference encoding %d; first difference at %d", len(target), len(prefix), len(stream), firstDiff(target, full))})
 		return
+	}
+	if len(prefix) > 0 {
+		cs.C.Obs("bytes-writer targets with initial contents", 1)
 	}
 	// buffer reader at running offsets (input in the guard-page arena)
 	in := place(stream, 0)
